@@ -1130,6 +1130,10 @@ pub fn inlines_in(g: &G, depth: u32, in_link: bool) -> BoxedStrategy<Vec<Inline>
                 Just("<sup style=\"display:none\">7</sup>"),
                 Just("<sup><b>8</b></sup>"),
                 Just("<sup>9a</sup>"),
+                // white space around the digits
+                Just("<sup> 2</sup>"),
+                Just("<sup>2 </sup>"),
+                Just("<sup>\n31\n</sup>"),
                 // numeric characters that are not ASCII digits
                 Just("<sup>\u{b2}</sup>"),
                 Just("<sup>\u{bd}</sup>"),
